@@ -361,3 +361,44 @@ Proof.
   intros Hn Hin Hs. rewrite reads_leaves_no_sub in Hin by exact Hn.
   rewrite check_expr_one. unfold one_spec. apply existsb_exists. exists t. auto.
 Qed.
+
+(** * Chain and table rule together (the table rule evaluated by the model: [rules_of]) *)
+
+Lemma in_set_not_nil ts t : in_set ts t = true -> is_nil ts = false.
+Proof. destruct ts; [discriminate|reflexivity]. Qed.
+
+(** a deny handler listing a table the statement shows in its FROM tree (at any depth of joins and
+    parentheses, on either side of a join) or inserts into rejects the statement *)
+Theorem deny_table_visible_rejected c pre post s hq mq ts hp mp t :
+  Forall (silent true) pre ->
+  In t (visible_tables s) -> in_set ts t = true ->
+  is_denied (handle_query c true (pre ++ HDeny (rules_of s hq mq ts hp mp) :: post)) = true.
+Proof.
+  intros Hpre Hin Hs. apply deny_rule_match_rejected; [exact Hpre|].
+  assert (H1 : fst (check_table_names ts s) = true) by (apply table_rule_deny; exists t; auto).
+  unfold rules_of. destruct (check_table_names ts s) as [one all]. cbn [fst] in H1. subst one.
+  cbn [has_t t_one]. rewrite (in_set_not_nil ts t Hs). cbn [negb andb].
+  rewrite orb_true_r. reflexivity.
+Qed.
+
+(** an allow handler with only a `tables:` list in front of denyall: a statement showing a table that is
+    not listed is rejected *)
+Theorem allow_tables_then_denyall_rejected c pre post s ts t :
+  Forall (silent true) pre ->
+  In t (visible_tables s) -> in_set ts t = false ->
+  is_denied (handle_query c true (pre ++ HAllow (rules_of s false false ts false false) :: HDenyAll :: post)) = true.
+Proof.
+  intros Hpre Hin Hs.
+  replace (pre ++ HAllow (rules_of s false false ts false false) :: HDenyAll :: post)
+    with ((pre ++ [HAllow (rules_of s false false ts false false)]) ++ HDenyAll :: post)
+    by (rewrite <- app_assoc; reflexivity).
+  apply not_admitted_before_denyall_rejected.
+  apply Forall_app. split; [exact Hpre|]. constructor; [|constructor].
+  unfold silent, rules_of.
+  destruct (check_table_names ts s) as [one all] eqn:E. cbn [decision has_q m_q has_t t_all has_p m_p andb orb].
+  destruct all.
+  - exfalso. assert (H : in_set ts t = true).
+    { apply (table_rule_allow_sound ts s); [rewrite E; reflexivity|exact Hin]. }
+    rewrite H in Hs. discriminate.
+  - rewrite andb_false_r. reflexivity.
+Qed.
